@@ -971,8 +971,44 @@ func (g *gen) declareLoopVar(t typ) *variable {
 	return v
 }
 
+func (g *gen) pick2(a, b string) string {
+	if g.chance(50) {
+		return a
+	}
+	return b
+}
+
 func (g *gen) switchStmt(d int) {
-	switch g.r.Intn(3) {
+	switch g.r.Intn(4) {
+	case 3: // constant cases over a boolean tag that needs control flow of its own (&&, ||)
+		g.w("switch %s {", g.pick2(g.boolExpr(1)+" && "+g.boolExpr(2), g.boolExpr(2)+" || "+g.boolExpr(1)))
+		g.w("case true:")
+		g.ind++
+		g.push()
+		g.block(d - 1)
+		g.pop()
+		fell := g.chance(25)
+		if fell {
+			g.w("fallthrough")
+		}
+		g.ind--
+		if fell || g.chance(60) {
+			g.w("case false:")
+			g.ind++
+			g.push()
+			g.block(d - 1)
+			g.pop()
+			g.ind--
+		}
+		if g.chance(30) {
+			g.w("default:")
+			g.ind++
+			g.push()
+			g.block(d - 1)
+			g.pop()
+			g.ind--
+		}
+		g.w("}")
 	case 0: // expression switch with fallthrough
 		g.w("switch %s %% 4 {", g.intExpr(2))
 		n := g.r.Intn(3) + 1
